@@ -137,7 +137,7 @@ CHECKS = {
              "transports triplets and entries; element permutations, triangle rotations/flips and tetra vertex swaps leave all entries "
              "unchanged; eigenpairs are transported with lambda -> lambda/s^2; normalisation by area / vol^(2/3) cancels the scaling; "
              "reweight and Euclidean distance specifications. compute_shapedna's dictionary, normalize_ev (3 methods x 2 kinds), "
-             "reweight_ev, compute_distance are compared with the model (including a solid with an internal cavity and its two-sheeted boundary, enclosed volume computed without the library). Spectrum-level statement holds relative to the eigensolver contract of C03. normalize_ev (all methods, real power 2/3) and compute_shapedna (Solver arguments, dictionary fields, outputs passed on) are re-traced from source as protocols on every run and bridged by proof.",
+             "reweight_ev, compute_distance are compared with the model (including a solid with an internal cavity and its two-sheeted boundary, enclosed volume computed without the library; recorded finding F21: such a solid with tetrahedra listed in mixed orientation). Spectrum-level statement holds relative to the eigensolver contract of C03. normalize_ev (all methods, real power 2/3) and compute_shapedna (Solver arguments, dictionary fields, outputs passed on) are re-traced from source as protocols on every run and bridged by proof.",
         ref="DESIGN.md 6/C04",
         note=NOTE + "spectrum-level invariance = matrix-level theorems + eigsh contract (C03); scaling limited to [1/4,4] in the search oracle.",
         technique="Lean 4 proof (similarity lemmas on dot products, induction over elements) tied by tracing bridges of the FEM kernels and differential driver"),
